@@ -136,7 +136,8 @@ Qed.
 
 Lemma step_conserved m s o : conserved s -> conserved (fst (step m s o)).
 Proof.
-  intros H. destruct o as [esize align cap fc|id|id]; cbn [step].
+  intros H. destruct o as [esize align cap fc|esize align cap|id|id]; cbn [step].
+  2: { apply fresh_conserved; exact H. }
   - destruct (cap * esize <? m); [apply fresh_conserved; exact H|].
     destruct (best_fit (pooled s) esize align cap) as [i|] eqn:B; [|apply fresh_conserved; exact H].
     destruct (nth_error (pooled s) i) as [b|] eqn:Nt; [|apply fresh_conserved; exact H].
